@@ -570,7 +570,7 @@ def run(chk):
     for case, tl, c, clause in later:
         key = "Terminates:%s:repacker-%s" % (case.get("label_key") or case["label"], MODE_WORD[tl["mode"]])
         nsub = sum(len(l["st"]) for l in (owner[id(tl)][1].get("final") or []))
-        what = ("%s: %s.compile() with USE_HARFBUZZ_REPACKER=%s did not return (stopped after %d resolutions / %d s): %s (event %s); "
+        what = ("%s: %s.compile() with USE_HARFBUZZ_REPACKER=%s did not return (stopped after %d resolutions / budget of %d CPU-s): %s (event %s); "
                 "the lookup list had grown to %d subtables when the run was stopped; events: %s"
                 % (case["label"], tl["tag"], {"F": False, "N": None, "T": True}[tl["mode"]], 22, case.get("budget", 60), c, clause[1:], nsub,
                    [e["a"] + (":" + json.dumps(e["rec"]) if e.get("res") == "overflow" else "") for e in tl["events"]][:16]))
